@@ -129,12 +129,14 @@ def pr(cmds,sep=" "):
         elif k=='l': out.append("l"+lenstr(c[1]))
         elif k=='o': out.append("o%d"%c[1])
         elif k=='orel': out.append(">" if c[1]>0 else "<")
+        elif k=='vrel': out.append(")" if c[1]>0 else "(")
+        elif k=='voice': out.append("@%d"%c[1])
         elif k=='v': out.append("v%d"%c[1])
         elif k=='q': out.append("q%d"%c[1])
         elif k=='t': out.append("t%d"%c[1])
         elif k=='loop': out.append("[%d %s%s]"%(c[1],pr(c[2]),"" if c[3] is None else " : "+pr(c[3])))
         elif k=='sub': out.append("Sub{%s}"%pr(c[1]))
-        elif k=='div': out.append("{%s}%s"%(pr(c[1]),lenstr(c[2])))
+        elif k=='div': out.append(("{%s}%s" if len(c)<4 or c[3]=='{' else "Div{%s}%s")%(pr(c[1]),lenstr(c[2])))
         elif k=='chord':
             s="'%s'%s"%(pr(c[1]),lenstr(c[2]))
             if c[3] is not None or c[4] is not None:
@@ -178,12 +180,10 @@ def gen_note(r,depth,in_div):
     if r.random()<0.2:
         return ('noten',r.randrange(20,100),gen_len(r),r.choice([None,None,50,100,120]),r.choice([None,None,30,127]),r.choice([None,None,0,3]))
     L=gen_len(r)
-    if in_div and L is not None: L=(L[0],[])   # avoid ^ inside tuplets for lettered notes (D#6)
     v=r.choice([None,None,None,40,127,200])
     tm=r.choice([None,None,None,0,2,7]); o=r.choice([None,None,None,3,6])
     q=r.choice([None,None,None,50,100,110])
-    if v is None and (tm is not None or o is not None): v=r.choice([64,90])   # avoid empty v slot (D#39)
-    if tm is None and o is not None: tm=0
+    if tm is None and o is not None: tm=0   # an empty timing slot followed by an octave slot is not part of the grammar
     return ('note',r.choice("cdefgab"),r.choice([0,0,0,1,-1,2]),r.random()<0.1,L,q,v,tm,o)
 def gen_cmds(r,depth,n,in_div=False,in_chord=False,top=False):
     out=[]
@@ -196,15 +196,16 @@ def gen_cmds(r,depth,n,in_div=False,in_chord=False,top=False):
         elif x<0.66: out.append(('orel',r.choice([1,-1])))
         elif x<0.70: out.append(('v',r.randrange(0,160)))
         elif x<0.74: out.append(('q',r.randrange(1,130)))
-        elif x<0.76: out.append(('t',r.randrange(0,6)))
-        elif x<0.82 and depth>0 and not in_div and not in_chord:
-            nn=r.randrange(1,4); a=gen_cmds(r,depth-1,r.randrange(1,4))
-            b=None if r.random()<0.5 else gen_cmds(r,0 if nn==1 else depth-1,r.randrange(0,3))
+        elif x<0.755: out.append(('t',r.randrange(0,6)))
+        elif x<0.76: out.append(('vrel',r.choice([1,-1])) if r.random()<0.7 else ('voice',r.randrange(1,129)))
+        elif x<0.82 and depth>0 and not in_chord:
+            nn=r.randrange(1,4); a=gen_cmds(r,depth-1,r.randrange(1,4),in_div=in_div)
+            b=None if r.random()<0.5 else gen_cmds(r,depth-1,r.randrange(0,3),in_div=in_div)
             out.append(('loop',nn,a,b))
         elif x<0.86 and depth>0 and not in_chord: out.append(('sub',gen_cmds(r,depth-1,r.randrange(1,4),in_div=False)))
         elif x<0.90 and depth>0 and not in_div and not in_chord:
-            b=gen_cmds(r,0,r.randrange(1,5),in_div=True); cnt=sum(1 for c in b if c[0] in('note','noten','rest'))+sum(hats(c[2]) for c in b if c[0]=='noten')
-            out.append(('div',b,gen_len(r),cnt))
+            b=gen_cmds(r,1 if r.random()<0.3 else 0,r.randrange(1,5),in_div=True)
+            out.append(('div',b,gen_len(r),r.choice(['{','{','D'])))
         elif x<0.94 and not in_chord and not in_div:
             b=[gen_note(r,0,False) for _ in range(r.randrange(1,4))]; b=[c for c in b if c[0]=='note'] or [('note','c',0,False,None,None,None,None,None)]
             L=gen_len(r)
@@ -217,6 +218,35 @@ def gen_cmds(r,depth,n,in_div=False,in_chord=False,top=False):
         elif top: out.append(('keyflag',r.choice([1,-1]),r.sample("cdefgab",r.randrange(1,4))))
     return out
 
+
+def _part_sexp(p):
+    pct, n, dots = p
+    return "(p %d %d %s %d)" % (1 if pct else 0, 1 if (n is not None and n < 0) else 0, "_" if n is None else str(abs(n)), dots)
+def _len_sexp(L):
+    if L is None: return "_"
+    h, parts = L
+    return "(len %s%s)" % (_part_sexp(h), "".join(" (94 %s)" % _part_sexp(p) for p in parts))
+def _oi(x): return "_" if x is None else str(x)
+def sexp(cmds):
+    out = []
+    for c in cmds:
+        k = c[0]
+        if k == 'note':
+            _, name, acc, nat, L, q, v, tm, o = c
+            out.append("(note %d %d %d %s %s %s %s %s)" % (SEMI[name], acc, 1 if nat else 0, _len_sexp(L), _oi(q), _oi(v), _oi(tm), _oi(o)))
+        elif k == 'noten':
+            _, no, L, q, v, tm = c
+            out.append("(noten %d %s %s %s %s)" % (no, _len_sexp(L), _oi(q), _oi(v), _oi(tm)))
+        elif k == 'rest': out.append("(rest %s %d)" % (_len_sexp(c[1]), c[2]))
+        elif k == 'l': out.append("(l %s)" % _len_sexp(c[1]))
+        elif k in ('o', 'orel', 'v', 'vrel', 'q', 't', 'tr', 'ch', 'voice', 'kshift', 'tkey'): out.append("(%s %d)" % (k, c[1]))
+        elif k == 'loop': out.append("(loop %d %s %d %s _)" % (c[1], sexp(c[2]), 0 if c[3] is None else 1, sexp(c[3] or [])))
+        elif k == 'sub': out.append("(sub %s)" % sexp(c[1]))
+        elif k == 'div': out.append("(div %s %s)" % (sexp(c[1]), _len_sexp(c[2])))
+        elif k == 'chord': out.append("(chord %s %s %s %s _)" % (sexp(c[1]), _len_sexp(c[2]), _oi(c[3]), _oi(c[4])))
+        elif k == 'keyflag': out.append("(keyflag %d (%s))" % (c[1], " ".join(str(SEMI[n]) for n in c[2])))
+        else: raise Exception("sexp: " + k)
+    return "(" + " ".join(out) + ")"
 
 def gen_program(rng, depth=3, maxlen=10, top=True):
     return gen_cmds(rng, depth, rng.randrange(1, maxlen), top=top)
